@@ -177,6 +177,17 @@ access, no sample handed to code that could not be followed), every required one
 def keyAccessOk (rows : List (String × String × String)) : Bool :=
   rows.all (fun r => keyAllowed.contains r) && keyRequired.all (fun r => rows.contains r)
 
+/-- the module whose definition is modelled (and translated) for each primitive -/
+def primitiveHome (prim : String) : String :=
+  if prim == "crop_to_bbox" || prim == "crop_to_largest" then "direct.data.bbox" else "direct.data.transforms"
+
+/-- rows `(file, primitive, module the reference resolves to)`: every reference to a crop / pad primitive inside `direct/`
+reaches the modelled definition.  (`direct/utils/bbox.py` is an older copy of `direct/data/bbox.py`; its own internal
+call is tolerated, any *other* file reaching it is not.) -/
+def callersOk (rows : List (String × String × String)) : Bool :=
+  rows.all fun (file, prim, mod) =>
+    mod == primitiveHome prim || (file == "direct/utils/bbox.py" && mod == "direct.utils.bbox")
+
 /-- hand-written table = what the translator finds on the current tree (fallback when the source cannot be walked) -/
 def keyAccessModel : List (String × String × String) := keyAllowed
 
